@@ -106,9 +106,14 @@ def gen_case(rnd, spec):
     kind = ["valid", "failing", "invalid", "valid"][(spec["case_index"] + spec["shard"]) % 4] if rnd.random() < 0.8 else rnd.choice(["valid", "invalid", "failing"])
     elems = gen_pipeline(rnd)
     fmt = rnd.choice(["yaml", "yaml", "python"])
+    slow = spec["case_index"] == 0 and spec["shard"] in (0, 1)  # the recorded finding, exercised on every run
+    if slow:
+        kind = "valid"
+        victim = [e for e in elems if e[1]][0]
+        victim[2]["slow_init"] = 0.5
     case = {"kind": kind, "format": fmt, "elems": elems, "suffix": rnd.choice([".yaml", ".yml"]) if fmt == "yaml" else ".py",
             "logging": fmt == "yaml" and rnd.random() < 0.35, "extra": fmt == "yaml" and rnd.random() < 0.25,
-            "signal_after": rnd.choice([0.2, 0.4, 0.7, 1.0]), "defect": None, "missing_file": False}
+            "signal_after": rnd.choice([0.2, 0.4, 0.7, 1.0]), "defect": None, "missing_file": False, "slow_init": slow}
     if kind == "failing":
         victims = [e for e in elems if e[1]]
         v = rnd.choice(victims)
@@ -168,7 +173,11 @@ def execute(case, result):
     what = "%s config%s" % (case["format"], (" with defect: %s" % case["defect"]) if case["defect"] else "")
 
     def bad(msg):
-        problems.append(("%s: %s\n--- config ---\n%s--- stderr (tail) ---\n%s" % (what, msg, case["text"], run.stderr[-1500:]), None))
+        mech = None
+        if case.get("slow_init") and "AttributeError" in run.stderr and "object has no attribute" in run.stderr and run.of("ctor-begin"):
+            # run() was started while the (slow) constructor of the service was still executing
+            mech = "C13/service-started-before-init-completes"
+        problems.append(("%s: %s\n--- config ---\n%s--- stderr (tail) ---\n%s" % (what, msg, case["text"], run.stderr[-1500:]), mech))
 
     result.count("daemons_%s" % case["kind"])
     result.count("configs_%s" % case["format"])
